@@ -20,4 +20,17 @@ CentreQuarter == (4 * (j - R) <= R /\ 4 * (R - j) <= R) => (Instant(j, R, sps) >
 \* and it is within a quarter slot (+1 sample) of the slot centre sps/2
 NearCentre == (4 * (j - R) <= R /\ 4 * (R - j) <= R) =>
    (4 * Instant(j, R, sps) >= sps - 4 /\ 4 * Instant(j, R, sps) <= 3 * sps + 4)
+\* ---- the reported index is Instant modulo sps (the phase within a slot) and it is the sample of the optimum instant: the sample that sits
+\* at grid index j of the rolled window is  j*sps/R + sps/2 - 1  in the record; the library undoes the roll as  - R/2 + 1  on the eye grid and
+\* truncates (towards zero: one sample more left of the window centre), which lands 1 ... 3 samples later.  EyeTrace's clause allows 3.1 samples
+\* (+ two eye-grid steps sps/R when the eye grid is coarser than the record - an odd R halves unevenly); here that allowance is checked against the design for EVERY grid position j, every sps
+\* and every R, in units of 1/(2R) sample so that the arithmetic is exact:  D = 2R*i - ((2j - R)*sps - R)  reduced to (-sps*R, sps*R]
+Index(jj, RR, ss) == Instant(jj, RR, ss) % ss
+Centred(d, m) == LET r == d % m IN IF 2 * r > m THEN r - m ELSE r
+IOff2R(jj, RR, ss) == Centred(2 * RR * Index(jj, RR, ss) - ((2 * jj - RR) * ss - RR), 2 * RR * ss)
+Allow2R(RR, ss) == (31 * 2 * RR) \div 10 + (IF RR < ss THEN 4 * ss ELSE 0)
+IndexInRange == Index(j, R, sps) >= 0 /\ Index(j, R, sps) < sps
+IndexAtOptimum == sps >= 8 => (IOff2R(j, R, sps) <= Allow2R(R, sps) /\ -IOff2R(j, R, sps) <= Allow2R(R, sps))
+\* negative control: one sample of allowance less is NOT enough (the clause's tolerance is not slack)
+TooTight == sps >= 8 => (IOff2R(j, R, sps) <= Allow2R(R, sps) - 2 * R /\ -IOff2R(j, R, sps) <= Allow2R(R, sps) - 2 * R)
 =============================================================================
